@@ -6,6 +6,7 @@ package PKGNAME
 
 import (
 	"fmt"
+	"time"
 )
 
 type verifObs struct {
@@ -117,3 +118,15 @@ func symAssertEq(got, want string, msg string) {
 }
 
 var verifDetail string
+
+// symQuiesce lets every other goroutine run until none can make progress and returns how
+// many are still blocked. Natively it can only wait a little; the count is then unknown (0).
+func symQuiesce() int {
+	verifSleep()
+	return 0
+}
+
+// symYield is a scheduling point for the calling goroutine.
+func symYield() { verifSleep() }
+
+func verifSleep() { time.Sleep(20 * time.Millisecond) }
